@@ -133,6 +133,10 @@ func canon(s []span) ([]span, error) {
 					maxPlusOne := this.max
 					if !this.maxOpen {
 						maxPlusOne = this.max.copy()
+						// A bound written with fewer than three numbers stands
+						// for the full version; inc would step the last number
+						// written ("0" -> "1") rather than the patch.
+						maxPlusOne.fill(0)
 						err := maxPlusOne.inc()
 						if err != nil {
 							return nil, err
